@@ -90,3 +90,21 @@ pub fn span(p: &Params) -> usize {
 		}
 	}
 }
+
+/// rounding-active values of mixed magnitudes: any re-ordering of a summation shows in the last bit
+pub fn scaled(c: &yata::core::Candle, k: f64) -> yata::core::Candle {
+	let k = k as ValueType;
+	yata::core::Candle { open: c.open * k, high: c.high * k, low: c.low * k, close: c.close * k, volume: c.volume * k }
+}
+pub fn mixed_candles() -> Vec<yata::core::Candle> {
+	let k = alpha::k_candles();
+	vec![scaled(&k[5], 0.001), k[5], scaled(&k[2], 3.73)]
+}
+pub fn mixed(k: InKind) -> Vec<In> {
+	match k {
+		InKind::Value => vec![In::V(0.001), In::V(1.7), In::V(37.3), In::V(0.33)],
+		InKind::Pair => vec![In::P(0.001, 1.7), In::P(37.3, 0.3), In::P(1.7, 11.1), In::P(0.33, 0.7)],
+		InKind::Candle => mixed_candles().into_iter().map(In::C).collect(),
+	}
+}
+
